@@ -256,7 +256,7 @@ class LocalDate(metaclass=_LocalDateMeta):
         _Preconditions._check_argument_range("day_of_week", day_of_week, 1, 7)
 
         # Correct day of week, 1st week of month.
-        week_1_day: int = start_of_month.day_of_week + 1
+        week_1_day: int = day_of_week - start_of_month.day_of_week + 1
         if week_1_day <= 0:
             week_1_day += 7
         target_day: int = week_1_day + (occurrence - 1) * 7
